@@ -166,7 +166,8 @@ class SSHConfig:
             else:
                 path = self._default_path
 
-            paths = sorted(p for p in path.glob(pattern) if p.is_file())
+            paths = sorted((p for p in path.glob(pattern) if p.is_file()),
+                           key=str)
 
             if not paths:
                 logger.debug1(f'Config pattern "{pattern}" matched no files')
